@@ -466,6 +466,24 @@ def instances(tier):
     out.append(outsxr_instance(2, 3, 2, 'reorder', perm=(2, 0, 1)))
     if th:
         out.append(outsxr_instance(2, 3, 2, 'reorder', perm=(1, 0, 2)))
+    # history: the same contracts after calls with other numbers of sources / outputs / sensors in the same process
+    from .common import with_history
+    from pb_bss.evaluation import sxr_module as sx
+
+    def other_sizes(sizes):
+        def warmup():
+            rng = np.random.RandomState(5)
+            for Ks, Kt in sizes:
+                if Kt >= Ks:
+                    sx.output_sxr(rng.normal(size=(Ks, Kt, 7)), rng.normal(size=(Kt, 7)))
+                sx.input_sxr(rng.normal(size=(Ks, Kt, 7)), rng.normal(size=(Kt, 7)))
+        return warmup
+    out.append(with_history(outsxr_instance(2, 3, 2, 'value'), other_sizes([(2, 2), (1, 3), (3, 3)]), 'other-sizes'))
+    out.append(with_history(outsxr_instance(2, 2, 2, 'value'), other_sizes([(2, 3), (2, 4), (1, 2)]), 'other-sizes'))
+    out.append(with_history(outsxr_instance(1, 2, 2, 'value'), other_sizes([(1, 3), (1, 1), (2, 2)]), 'other-sizes'))
+    out.append(with_history(outsxr_instance(2, 3, 2, 'reorder', perm=(2, 0, 1)), other_sizes([(2, 2), (2, 4)]), 'other-sizes'))
+    out.append(with_history(insxr_instance(2, 2, 2, True, 'value'), other_sizes([(2, 3), (3, 2), (2, 1)]), 'other-sizes'))
+    out.append(with_history(insxr_instance(2, 1, 2, False, 'value'), other_sizes([(2, 2), (3, 1)]), 'other-sizes'))
     out.append(snr_instance((3,)))
     out.append(snr_instance((2, 2)))
     for ax in (0, -1, 1, (0,), (0, 1)):
